@@ -39,7 +39,7 @@ inductive Label
   | spurious                          -- a turn of the loop nobody asked for (e.g. resumed after a spawn on a full pool)
   | dequeue (id : Nat) (c : Cause)    -- a pending _dequeue task gets its store.get answer and goes on
   | done (id : Nat) (ok : Bool)       -- the relay returns: ok = the message leaves the queue; else transient failure
-  | retry (id : Nat) (w : Option Nat) -- _retry_later, `w` = what the backoff function answered
+  | retry (id : Nat) (w : Option Nat) -- _retry_later: `none` = the backoff function gave up; `some t` = the due time it chose (time of the call + its answer)
   | remove (id : Nat)                 -- _remove_stored
   | flush
 deriving Repr, DecidableEq
@@ -90,8 +90,9 @@ def step (s : State) : Label → Option State
       some (if s1.active.contains id then s1 else handOff s1 id .enqueue)
     else none
   | .announce id ts =>
-    -- the storage reports a message it holds, with the timestamp it holds for it
-    if s.stored.contains (id, ts) then
+    -- the storage reports a message it holds. A message this queue has not heard of yet comes with the timestamp the
+    -- storage holds for it; an announcement of a known message may be stale (Redis: the entry pushed when it was written)
+    if s.stored.contains (id, ts) || (s.known.contains id && (tsOf s id).isSome) then
       some (addQueued { s with known := if s.known.contains id then s.known else id :: s.known } ts id)
     else none
   | .tick dt => some { s with now := s.now + dt }
@@ -114,8 +115,7 @@ def step (s : State) : Label → Option State
       let s1 := { s with retry := without s.retry id }
       match w with
       | none => some { s1 with rem := id :: s1.rem }        -- too many retries: the message leaves the queue
-      | some w =>
-        let when := s.now + w
+      | some when =>
         let s2 := { s1 with stored := s1.stored.map (fun e => if e.1 == id then (id, when) else e),
                             active := without s1.active id }
         some (addQueued s2 when id)
